@@ -208,6 +208,8 @@ func TsigGenerateWithProvider(m *Msg, provider TsigProvider, requestMAC string, 
 	if err != nil {
 		return nil, "", err
 	}
+	// tsigBuffer put the original ID into the header for the digest; what is sent carries the message's own ID.
+	binary.BigEndian.PutUint16(mbuf[0:2], m.Id)
 	mbuf = append(mbuf, tbuf[:off]...)
 	// Update the ArCount directly in the buffer.
 	binary.BigEndian.PutUint16(mbuf[10:], uint16(len(m.Extra)+1))
